@@ -150,6 +150,22 @@ extern "C" void vh_c13_alias() {
     // alias -> array
     r.unit("kHz"); r.label("freq");
     nixsym_assert(a.unit() && *a.unit() == "kHz" && a.label() && *a.label() == "freq", "changes through the alias show in the array");
+    // ticks written through the alias (shorter, equal or longer than the array) ARE the array's data afterwards, in both directions
+    {
+        uint32_t len = 1 + nixsym_choice("alias_ticks", 4);
+        std::vector<double> nt(len);
+        for (uint32_t i = 0; i < len; i++) { nt[i] = nixsym_f64("at"); nixsym_assume(nt[i] == nt[i]); if (i) nixsym_assume(nt[i - 1] < nt[i]); }
+        r.ticks(nt);
+        std::vector<double> back = r.ticks(), data;
+        a.getData(data);
+        nixsym_assert(back == nt, "ticks written through the alias read back exactly");
+        nixsym_assert(data == nt && a.dataExtent() == NDSize({len}), "ticks written through the alias are the array's data (extent and values)");
+        bool asc = true; for (size_t i = 1; i < back.size(); i++) asc = asc && back[i - 1] < back[i];
+        nixsym_assert(asc, "alias ticks ascending");
+        std::string fname = WORLD_FILE;
+        RangeDimension r2 = w.b.getDataArray("al").getDimension(1).asRangeDimension();
+        nixsym_assert(r2.ticks() == nt, "a second handle sees the same ticks");
+    }
     bool threw = false; try { a.appendAliasRangeDimension(); } catch (const std::exception &) { threw = true; }
     nixsym_assert(threw && a.dimensionCount() == 1, "a second alias is rejected");
     threw = false; try { w.da2.appendAliasRangeDimension(); } catch (const std::exception &) { threw = true; }
